@@ -1,5 +1,6 @@
 """C11 - k-d tree: construction terminates, leaves partition the points, kNN and radius queries are exact."""
 import math
+import random
 import numbers
 import numpy as np
 from hypothesis import strategies as st
@@ -29,6 +30,44 @@ REL_TOL = 1e-12
 
 
 # ------------------------------------------------------------------------------------------ generators
+class HypSrc:
+    """choices drawn from Hypothesis (small cases: shrinkable)"""
+    def __init__(self, draw):
+        self.draw = draw
+
+    def integer(self, lo, hi):
+        return self.draw(st.integers(lo, hi))
+
+    def real(self, lo, hi):
+        if not hi > lo:
+            return float(lo)
+        return self.draw(st.floats(min_value=float(lo), max_value=float(hi), allow_nan=False, allow_infinity=False))
+
+    def choice(self, seq):
+        return self.draw(st.sampled_from(list(seq)))
+
+    def boolean(self):
+        return self.draw(st.booleans())
+
+
+class RndSrc:
+    """choices from a seeded generator (large clouds: thousands of Hypothesis draws would overrun its buffer)"""
+    def __init__(self, seed):
+        self.r = random.Random(seed)
+
+    def integer(self, lo, hi):
+        return self.r.randint(lo, hi)
+
+    def real(self, lo, hi):
+        return self.r.uniform(lo, hi)
+
+    def choice(self, seq):
+        return self.r.choice(list(seq))
+
+    def boolean(self):
+        return self.r.random() < 0.5
+
+
 def _fl(S):
     return st.floats(min_value=-S, max_value=S, allow_nan=False, allow_infinity=False, width=64)
 
@@ -37,31 +76,175 @@ def _is_int_array(pts):
     return all(float(x) == int(x) for p in pts for x in p)
 
 
+NP_DTYPES = {"float64": np.float64, "float32": np.float32, "float16": np.float16, "int8": np.int8, "uint8": np.uint8,
+             "int16": np.int16, "int32": np.int32, "int64": np.int64}
+INT_KIND_DTYPES = ["float64"] * 3 + ["int64", "int64", "int32", "int16", "int8", "uint8", "float32", "float16"]
+FLOAT_KIND_DTYPES = ["float64"] * 4 + ["float32"] * 2 + ["float16"]
+
+
+def place(src, pts, d, integral):
+    """Second generation stage: choose the array dtype, a uniform scale and a translation (cloud far from the origin
+    compared with its size) and realise the coordinates *as stored in that dtype*. Returns (pts, dtype name, tags)."""
+    tags = []
+    N = len(pts)
+    if integral:
+        dtype = src.choice(INT_KIND_DTYPES)
+        maxabs = max([0] + [abs(int(x)) for p in pts for x in p])
+        lim = {"int8": 127, "uint8": 255, "int16": 32767, "int32": 2 * 10 ** 9, "int64": 10 ** 12, "float64": 10 ** 12,
+               "float32": 2 ** 24, "float16": 2048}[dtype]
+        if maxabs * 2 > lim:                     # cannot happen with the shapes below; keep the case valid anyway
+            dtype, lim = "int64", 10 ** 12
+        far = dtype == "uint8" or src.integer(0, 2) == 0
+        off = [0] * d
+        if far:
+            tags.append("far-from-origin")
+            for a in range(d):
+                if dtype == "uint8":
+                    off[a] = src.integer(maxabs, lim - maxabs)
+                else:
+                    L = lim - maxabs
+                    off[a] = src.integer(L // 2, L) * (1 if src.boolean() else -1)
+        out = [[int(p[a]) + off[a] for a in range(d)] for p in pts]
+        arr = np.array(out, dtype=NP_DTYPES[dtype]).reshape((N, d))
+        assert arr.astype(object).tolist() == out or N == 0, "integer lattice not representable in " + dtype
+        if dtype.startswith("float"):
+            out = [[int(x) for x in p] for p in arr.astype(np.float64).tolist()]
+        return out, dtype, tags
+    dtype = src.choice(FLOAT_KIND_DTYPES)
+    S = src.choice({"float64": [1.0, 1.0, 1e-8, 1e-3, 1e3, 1e6], "float32": [1.0, 1.0, 1e-8, 1e-3, 1e3, 1e6],
+                    "float16": [1.0, 1e-3, 100.0]}[dtype])
+    off = [0.0] * d
+    if src.integer(0, 2) == 0:
+        e = src.choice({"float64": [3, 4, 5, 6, 7, 8], "float32": [3, 3, 4, 5, 6], "float16": [1, 2]}[dtype])
+        tags.append("far-from-origin")
+        for a in range(d):
+            off[a] = S * 10.0 ** e * src.real(0.5, 1.0) * (1 if src.boolean() else -1)
+    if S != 1.0:
+        tags.append(f"scale={S:g}")
+    arr = np.array([[float(p[a]) * S + off[a] for a in range(d)] for p in pts], dtype=np.float64).reshape((N, d))
+    arr = arr.astype(NP_DTYPES[dtype]).astype(np.float64)
+    assert np.all(np.isfinite(arr)), "generator produced a non-finite coordinate"
+    return arr.tolist(), dtype, tags
+
+
+DY_LIMIT = 2.0 ** 44
+
+
+def _dy(x):
+    x = float(x)
+    return abs(x) <= DY_LIMIT and x * 4 == int(x * 4)
+
+
+def make_queries(src, pts, d, leaf, nq):
+    """queries for a realised point list (python numbers = stored values)"""
+    N = len(pts)
+    dyadic = all(_dy(x) for p in pts for x in p)
+    if N > 0:
+        lo = [min(p[a] for p in pts) for a in range(d)]
+        hi = [max(p[a] for p in pts) for a in range(d)]
+    else:
+        lo, hi = [-1] * d, [1] * d
+    S = max([abs(float(x)) for x in lo + hi])          # coordinate magnitude
+    ext = max(float(hi[a]) - float(lo[a]) for a in range(d))
+    if not ext > 0:
+        ext = S if S > 0 else 1.0
+    if not S > 0:
+        S = 1.0
+    queries = []
+    for _ in range(nq):
+        kinds = ["on", "inside", "outside", "mid", "near-on", "near-mid"] if N > 0 else ["inside", "outside"]
+        qkind = src.choice(kinds)
+        if qkind in ("on", "near-on"):
+            q = [float(x) for x in pts[src.integer(0, N - 1)]]
+        elif qkind in ("mid", "near-mid"):
+            p1, p2 = pts[src.integer(0, N - 1)], pts[src.integer(0, N - 1)]
+            q = [(float(p1[a]) + float(p2[a])) / 2 for a in range(d)]
+        else:
+            if dyadic:
+                q = [src.integer(2 * math.floor(lo[a]), 2 * math.ceil(hi[a])) / 2 for a in range(d)]
+            else:
+                q = [src.real(float(lo[a]), float(hi[a])) for a in range(d)]
+            if qkind == "outside":
+                for a in sorted({src.integer(0, d - 1) for _ in range(src.integer(1, d))}):
+                    delta = src.integer(1, 8) / 2 if dyadic else src.real(0.0, ext)
+                    q[a] = (float(hi[a]) + delta) if src.boolean() else (float(lo[a]) - delta)
+        if qkind.startswith("near"):
+            # a perturbation far above round-off of float64 but below single precision: a decisive near-tie
+            eps = 10.0 ** -src.integer(5, 10) * S
+            u = [src.integer(-1, 1) for _ in range(d)]
+            if not any(u):
+                u[src.integer(0, d - 1)] = 1
+            q = [q[a] + eps * u[a] for a in range(d)]
+        q = [float(x) for x in q]
+        km = src.integer(0, 9)
+        if km <= 4:
+            k = src.integer(1, N + 3)
+        elif km <= 8:
+            k = src.integer(1, min(N + 3, leaf + 3))
+        else:
+            k = src.choice([N + 50, 1000])
+        q_dyadic = dyadic and all(_dy(x) for x in q)
+        rk = src.choice(["zero", "free", "point", "point", "point-eps"] if N > 0 else ["zero", "free"])
+        if rk == "zero":
+            r = 0.0
+        elif rk in ("point", "point-eps"):
+            p = pts[src.integer(0, N - 1)]
+            if q_dyadic and rk == "point":
+                D = sum((int(4 * q[a]) - int(4 * float(p[a]))) ** 2 for a in range(d))      # 16 * dist^2
+                r = math.isqrt(D) / 4         # the exact distance when it is dyadic, else the dyadic just below it
+            else:
+                r = math.sqrt(math.fsum((q[a] - float(p[a])) ** 2 for a in range(d)))
+                if rk == "point-eps":
+                    r = max(0.0, r + 10.0 ** -src.integer(5, 10) * S * (1 if src.boolean() else -1))
+                elif src.integer(0, 3) == 0:
+                    r = math.nextafter(r, math.inf)
+        else:
+            if q_dyadic:
+                r = src.integer(0, 4 * (2 * math.ceil(ext) + 4)) / 4
+            else:
+                r = src.real(0.0, 2.5 * ext * math.sqrt(d))
+        rform = src.choice(["float", "float", "np64", "np32", "int"])
+        if rform == "np32":
+            r32 = float(np.float32(r))
+            if math.isfinite(r32):
+                r = r32
+            else:
+                rform = "float"
+        if rform == "int" and not (float(r) == int(r) and abs(r) < 2 ** 53):
+            rform = "float"
+        queries.append({"q": q, "k": int(k), "r": float(r), "qkind": qkind, "rkind": rk,
+                        "qform": src.choice(["vec", "vec", "array", "list", "tuple"]), "kform": src.choice(["int", "int", "np"]),
+                        "rform": rform, "repeat": src.integer(0, 2) == 0})
+    return queries
+
+
+def spell(src, strategy):
+    return {0: strategy, 1: strategy.upper(), 2: strategy.capitalize()}[src.choice([0, 0, 0, 0, 0, 1, 2])]
+
+
 @st.composite
 def kd_case(draw, with_queries=True):
+    src = HypSrc(draw)
     kind = draw(st.sampled_from(KIND_WEIGHTS))
     d = draw(st.integers(1, 4))
     N = draw(st.one_of(st.integers(0, 12), st.integers(0, 80), st.integers(9, 80)))
-    leaf = draw(st.integers(1, 8))
-    strategy = draw(st.sampled_from(["balanced", "fast", "random"]))
-    S = 1.0
+    leaf = draw(st.integers(1, 8)) if draw(st.integers(0, 7)) else draw(st.sampled_from([10, 16, 50, 100]))
+    strategy = spell(src, draw(st.sampled_from(["balanced", "fast", "random"])))
     if kind == "lattice":
         R = draw(st.sampled_from([1, 2, 3, 6]))
         pts = draw(st.lists(st.lists(st.integers(-R, R), min_size=d, max_size=d), min_size=N, max_size=N))
     elif kind == "uniform":
-        S = draw(st.sampled_from([1.0, 1000.0]))
-        pts = draw(st.lists(st.lists(_fl(S), min_size=d, max_size=d), min_size=N, max_size=N))
+        pts = draw(st.lists(st.lists(_fl(1.0), min_size=d, max_size=d), min_size=N, max_size=N))
     elif kind == "cluster":
-        S = draw(st.sampled_from([1.0, 1000.0]))
         nc = draw(st.integers(1, 4))
-        centres = draw(st.lists(st.lists(_fl(S * 0.9), min_size=d, max_size=d), min_size=nc, max_size=nc))
+        centres = draw(st.lists(st.lists(_fl(0.9), min_size=d, max_size=d), min_size=nc, max_size=nc))
         pts = []
         for _ in range(N):
             c = centres[draw(st.integers(0, nc - 1))]
             if draw(st.integers(0, 2)) == 0:
                 pts.append(list(c))                      # exact duplicate of the centre
             else:
-                pts.append([c[a] + draw(_fl(1e-3 * S)) for a in range(d)])
+                pts.append([c[a] + draw(_fl(1e-3)) for a in range(d)])
     elif kind == "collinear":
         base = draw(st.lists(st.integers(-3, 3), min_size=d, max_size=d))
         direc = draw(st.lists(st.integers(-2, 2), min_size=d, max_size=d))
@@ -87,64 +270,40 @@ def kd_case(draw, with_queries=True):
             for i in range(m):
                 for a in axes:
                     pts[(off + i) % N][a] = R
-    integral = _is_int_array(pts)
-    int_dtype = integral and draw(st.integers(0, 3)) == 0
-    if integral:
-        pts = [[int(x) for x in p] for p in pts]
-    dyadic = all(float(x) * 4 == int(float(x) * 4) for p in pts for x in p)
+    pts, dtype, tags = place(src, pts, d, _is_int_array(pts))
+    queries = make_queries(src, pts, d, leaf, draw(st.integers(1, 4))) if with_queries else []
+    return {"kind": kind, "d": d, "points": pts, "dtype": dtype, "tags": tags, "leaf": leaf, "strategy": strategy,
+            "queries": queries, "bad_first": bool(with_queries and draw(st.integers(0, 7)) == 0)}
 
-    # bounding box (default [-1,1]^d for the empty set)
-    if N > 0:
-        lo = [min(p[a] for p in pts) for a in range(d)]
-        hi = [max(p[a] for p in pts) for a in range(d)]
+
+def realise_large(seed, N, d, kind, leaf, strategy, nq):
+    src = RndSrc(seed)
+    rs = np.random.RandomState(seed % (2 ** 32))
+    if kind == "lattice":
+        R = src.choice([2, 5, 20])
+        pts = rs.randint(-R, R + 1, size=(N, d)).tolist()
+    elif kind == "cluster":
+        nc = src.integer(1, 6)
+        C = rs.uniform(-0.9, 0.9, size=(nc, d))
+        which = rs.randint(0, nc, size=N)
+        noise = rs.normal(0, 1e-3, size=(N, d)) * (rs.randint(0, 3, size=(N, 1)) > 0)     # a third are exact duplicates
+        pts = (C[which] + noise).tolist()
     else:
-        lo, hi = [-1] * d, [1] * d
-    S = max([1.0] + [abs(float(x)) for x in lo + hi])
+        pts = rs.uniform(-1, 1, size=(N, d)).tolist()
+    pts, dtype, tags = place(src, pts, d, kind == "lattice")
+    return {"kind": kind, "d": d, "points": pts, "dtype": dtype, "tags": tags + ["large"], "leaf": leaf,
+            "strategy": spell(src, strategy), "queries": make_queries(src, pts, d, leaf, nq), "bad_first": False}
 
-    def half(a_lo, a_hi):
-        return draw(st.integers(math.ceil(2 * a_lo), math.floor(2 * a_hi))) / 2
 
-    queries = []
-    for _ in range(draw(st.integers(1, 4)) if with_queries else 0):
-        qkind = draw(st.sampled_from(["on", "inside", "outside", "mid"] if N > 0 else ["inside", "outside"]))
-        if qkind == "on":
-            q = list(pts[draw(st.integers(0, N - 1))])
-        elif qkind == "mid":
-            p1, p2 = pts[draw(st.integers(0, N - 1))], pts[draw(st.integers(0, N - 1))]
-            q = [(p1[a] + p2[a]) / 2 for a in range(d)]
-        else:
-            if dyadic:
-                q = [half(math.floor(lo[a]), math.ceil(hi[a])) for a in range(d)]
-            else:
-                q = [draw(st.floats(min_value=float(lo[a]), max_value=float(hi[a]), allow_nan=False)) for a in range(d)]
-            if qkind == "outside":
-                axes_out = sorted(set(draw(st.lists(st.integers(0, d - 1), min_size=1, max_size=d))))
-                for a in axes_out:
-                    delta = draw(st.integers(1, 8)) / 2 if dyadic else draw(st.floats(min_value=0.0, max_value=S, allow_nan=False))
-                    q[a] = (hi[a] + delta) if draw(st.booleans()) else (lo[a] - delta)
-        q = [float(x) for x in q]
-        k = draw(st.one_of(st.integers(1, N + 3), st.integers(1, min(N + 3, leaf + 3))))
-        q_dyadic = dyadic and all(x * 4 == int(x * 4) for x in q)
-        rk = draw(st.sampled_from(["zero", "free", "point", "point"] if N > 0 else ["zero", "free"]))
-        if rk == "zero":
-            r = 0.0
-        elif rk == "point":
-            p = pts[draw(st.integers(0, N - 1))]
-            if q_dyadic:
-                D = sum((int(4 * q[a]) - int(4 * float(p[a]))) ** 2 for a in range(d))      # 16 * dist^2
-                r = math.isqrt(D) / 4         # the exact distance when it is dyadic, else the dyadic just below it
-            else:
-                r = math.sqrt(math.fsum((q[a] - float(p[a])) ** 2 for a in range(d)))
-                if draw(st.integers(0, 3)) == 0:
-                    r = math.nextafter(r, math.inf)
-        else:
-            if q_dyadic:
-                r = draw(st.integers(0, int(4 * (2 * S + 4)))) / 4
-            else:
-                r = draw(st.floats(min_value=0.0, max_value=2.5 * S * math.sqrt(d), allow_nan=False))
-        queries.append({"q": q, "k": k, "r": float(r), "qkind": qkind, "rkind": rk})
-    return {"kind": kind, "d": d, "points": pts, "int_dtype": bool(int_dtype), "leaf": leaf, "strategy": strategy,
-            "queries": queries}
+@st.composite
+def large_case(draw):
+    seed = draw(st.integers(0, 2 ** 32 - 1))
+    N = draw(st.one_of(st.integers(100, 400), st.integers(1000, 5000)))
+    d = draw(st.sampled_from([1, 2, 2, 3, 3, 4]))
+    kind = draw(st.sampled_from(["uniform", "uniform", "lattice", "cluster"]))
+    leaf = draw(st.sampled_from([1, 3, 10, 10, 32]))
+    strategy = draw(st.sampled_from(["balanced", "fast", "fast", "random"]))
+    return realise_large(seed, N, d, kind, leaf, strategy, draw(st.integers(2, 4)))
 
 
 # ------------------------------------------------------------------------------------------ termination monitor
@@ -219,7 +378,7 @@ def watched_class(KDTree):
 # ------------------------------------------------------------------------------------------ brute force
 def is_dyadic4(x):
     x = float(x)
-    return abs(x) <= 1e6 and x * 4 == int(x * 4)
+    return abs(x) <= DY_LIMIT and x * 4 == int(x * 4)
 
 
 def exact_d2(pts, q):
@@ -268,6 +427,10 @@ def self_test():
     for _ in range(5):
         m.observe(idx, 0, (1.0, idx, idx[:0]))      # random rule, points differ: never a certificate
     assert as_index_list([np.int64(1), 2], 3)[0] == [1, 2] and as_index_list([3], 3)[0] is None
+    # the generators realise coordinates exactly as the chosen dtype stores them
+    c = realise_large(5, 120, 2, "uniform", 10, "fast", 2)
+    A = np.array(c["points"], dtype=NP_DTYPES[c["dtype"]])
+    assert A.astype(np.float64).tolist() == np.array(c["points"], dtype=np.float64).tolist()
 
 
 # ------------------------------------------------------------------------------------------ the check
@@ -279,28 +442,102 @@ def fn_queries(case, ctx):
     run_case(case, ctx, "queries")
 
 
+def knn_oracle(ctx, res, idx_D, k, N, exact, tol, where):
+    """idx_D: brute-force distances (16*d^2 ints when exact, floats otherwise) of every point"""
+    D = idx_D
+    idx, err = as_index_list(res, N)
+    if not ctx.check(err is None, "knn:type", f"{where} k={k}: {err}; result {res!r}"):
+        return
+    want = min(k, N)
+    good = ctx.check(len(idx) == want, "knn:count", f"{where} k={k}: {len(idx)} indices returned, expected min(k,N)={want}; "
+                     f"result {idx[:40]}")
+    good = ctx.check(len(set(idx)) == len(idx), "knn:distinct", f"{where} k={k}: repeated index in {idx[:40]}") and good
+    got = [D[i] for i in idx]
+    slack = 0 if exact else tol
+    unit = "16*d^2" if exact else "distances"
+    bad = [j for j in range(len(got) - 1) if not got[j] <= got[j + 1] + slack]
+    ctx.check(not bad, "knn:order", f"{where} k={k}: {unit} not non-decreasing at position {bad[:1]}: "
+              f"{got[max(0, bad[0] - 1):bad[0] + 3] if bad else ''} (indices {idx[:40]})")
+    best = sorted(D)[:len(idx)] if good else sorted(D)[:want]
+    sg = sorted(got)
+    same = len(sg) == len(best) and all((a == b) if exact else (abs(a - b) <= tol) for a, b in zip(sg, best))
+    if not same:
+        j = next((j for j, (a, b) in enumerate(zip(sg, best)) if (a != b if exact else abs(a - b) > tol)), None)
+        ctx.check(False, "knn:nearest", f"{where} k={k}: returned {idx[:40]}; sorted {unit} differ from the {len(best)} smallest "
+                  f"at rank {j}: returned {sg[j] if j is not None else None!r}, brute force {best[j] if j is not None else None!r}")
+    else:
+        ctx.check(True, "knn:nearest")
+
+
+def radius_oracle(ctx, res, D, r, N, exact, tol, where):
+    idx, err = as_index_list(res, N)
+    if not ctx.check(err is None, "radius:type", f"{where} r={r}: {err}; result {res!r}"):
+        return
+    ctx.check(len(set(idx)) == len(idx), "radius:distinct", f"{where} r={r}: repeated index in {sorted(idx)[:40]}")
+    got = set(idx)
+    if exact:
+        r2 = int(4 * r) ** 2
+        exp = {i for i in range(N) if D[i] <= r2}
+        if any(D[i] == r2 for i in range(N)):
+            ctx.label("point-exactly-on-sphere")
+        ctx.check(got == exp, "radius:set", f"{where} r={r}: missing {sorted(exp - got)[:10]} extra {sorted(got - exp)[:10]} "
+                  f"(16*d^2 of those: {[D[i] for i in sorted(exp ^ got)[:10]]}, 16*r^2={r2})")
+    else:
+        must = {i for i in range(N) if D[i] <= r - tol}
+        may = {i for i in range(N) if r - tol < D[i] <= r + tol}       # exempt: within tol of the sphere
+        ctx.check(must <= got and got <= (must | may), "radius:set",
+                  f"{where} r={r!r}: missing {sorted(must - got)[:10]} extra {sorted(got - must - may)[:10]} "
+                  f"(distances {[D[i] for i in sorted((must - got) | (got - must - may))[:10]]}, tol {tol:g})")
+    if len(got) not in (0, N):
+        ctx.label("radius-proper-subset")
+
+
+def scribble(res):
+    """what a caller may do with a list it was handed: overwrite and extend it"""
+    if isinstance(res, list):
+        for j in range(len(res)):
+            res[j] = -7
+        res.append(-1)
+    elif isinstance(res, np.ndarray) and res.flags.writeable:
+        res[...] = -7
+
+
 def run_case(case, ctx, mode):
     import mouette as M
     from mouette.spatial import KDTree
     d, pts, leaf, strategy = case["d"], case["points"], case["leaf"], case["strategy"]
     N = len(pts)
-    P = np.array(pts, dtype=(np.int64 if case.get("int_dtype") else np.float64)).reshape((N, d))
+    dtname = case.get("dtype") or ("int64" if case.get("int_dtype") else "float64")
+    P = np.array(pts, dtype=NP_DTYPES[dtname]).reshape((N, d))
     P0 = P.copy()
+    if not np.array_equal(P0.astype(np.float64), np.array(pts, dtype=np.float64).reshape((N, d))):
+        raise AssertionError(f"case coordinates are not representable in {dtname}")       # harness error: invalid case
     pts_dyadic = all(is_dyadic4(x) for p in pts for x in p)
     distinct_pts = len({tuple(float(x) for x in p) for p in pts})
-    ctx.label("kind=" + case["kind"], f"d={d}", "strategy=" + strategy, "leaf<=2" if leaf <= 2 else "leaf>2")
+    ctx.label("kind=" + case["kind"], f"d={d}", "strategy=" + strategy.lower(), "dtype=" + dtname,
+              "leaf<=2" if leaf <= 2 else ("leaf<=8" if leaf <= 8 else "leaf>8"))
+    ctx.label(*[t for t in case.get("tags", [])])
+    if strategy != strategy.lower():
+        ctx.label("strategy-spelled-with-capitals")
     ctx.label("N=0" if N == 0 else ("N<=leaf" if N <= leaf else "inner-node"))
+    if N >= 1000:
+        ctx.label("N>=1000")
     if distinct_pts < N:
         ctx.label("duplicate-points")
     if N > leaf and distinct_pts == 1:
         ctx.label("identical>leaf")
-    if case.get("int_dtype"):
-        ctx.label("int-dtype")
     ctx.label("dyadic-points" if pts_dyadic else "float-points")
+
+    def unchanged(what):
+        ok1 = ctx.check(P.dtype == P0.dtype and np.array_equal(P, P0), "side-effect:input", f"{what}: the caller's point array was modified")
+        tp = getattr(tree, "points", None)
+        ok2 = ctx.check(isinstance(tp, np.ndarray) and tp.shape == P0.shape and np.array_equal(tp, P0), "side-effect:tree-points",
+                        f"{what}: tree.points differs from the input")
+        return ok1 and ok2
 
     # ---- build under the termination monitor
     W = watched_class(KDTree)
-    mon = SplitMonitor(P0, strategy, 200 * (N + 10))
+    mon = SplitMonitor(P0, strategy.lower(), 200 * (N + 10))
     W._mon = mon
     try:
         ok, tree = ctx.call("build", W, P, leaf, strategy)
@@ -347,15 +584,30 @@ def run_case(case, ctx, mode):
                      f"(index: multiplicity) {[(i, count[i]) for i in bad[:10]]}"):
         return
     ctx.check(n_leaves >= 1, "build:partition", "tree has no leaf")
+    if not unchanged("after construction"):
+        return
     inner = N > leaf
 
-    # ---- queries
+    # ---- a call that fails on a bad argument must not disturb the following ones
+    if mode == "queries" and case.get("bad_first"):
+        ctx.label("bad-call-first")
+        for f, arg in ((tree.query, 1), (tree.query_radius, 1.0)):
+            try:
+                f(M.Vec([0.0] * (d + 1)), arg)
+            except Exception:
+                pass
+        if not unchanged("after a query with a point of the wrong dimension"):
+            return
+
+    # ---- queries, all on the same tree object
+    maxabs = float(np.max(np.abs(P0.astype(np.float64)))) if N else 0.0
     for qi, Q in enumerate(case["queries"] if mode == "queries" else []):
         q, k, r = [float(x) for x in Q["q"]], int(Q["k"]), float(Q["r"])
-        where = f"N={N} d={d} leaf={leaf} strategy={strategy} query#{qi} q={q}"
-        q_exact = pts_dyadic and all(is_dyadic4(x) for x in q)
-        r_exact = q_exact and is_dyadic4(r)
-        scale = max([1.0] + [abs(x) for x in q] + ([float(np.max(np.abs(P0)))] if N else []))
+        where = f"N={N} d={d} dtype={dtname} leaf={leaf} strategy={strategy} query#{qi} q={q}"
+        q_exact = pts_dyadic and all(is_dyadic4(x) for x in q) and \
+            all(abs(q[a] - float(p[a])) <= 2 ** 20 for p in pts for a in range(d))
+        r_exact = q_exact and is_dyadic4(r) and r <= 2 ** 22
+        scale = max([maxabs] + [abs(x) for x in q])
         tol = REL_TOL * scale
         ctx.label("q-" + str(Q.get("qkind")), "r-" + str(Q.get("rkind")))
         ctx.label("knn-exact" if q_exact else "knn-tol", "radius-exact" if r_exact else "radius-tol")
@@ -364,70 +616,52 @@ def run_case(case, ctx, mode):
         if k > leaf: ctx.label("k>leaf")
         if inner and (k > 1 or r > 0):
             ctx.nontrivial()
-        qv = M.Vec(q)
+        qform, kform, rform = Q.get("qform", "vec"), Q.get("kform", "int"), Q.get("rform", "float")
+        ctx.label("qform=" + qform, "rform=" + rform)
+        qv = {"vec": lambda: M.Vec(q), "array": lambda: np.array(q, dtype=np.float64), "list": lambda: list(q),
+              "tuple": lambda: tuple(q)}[qform]()
+        kv = np.int64(k) if kform == "np" else k
+        rv = {"float": lambda: r, "np64": lambda: np.float64(r), "np32": lambda: np.float32(r), "int": lambda: int(r)}[rform]()
+        if float(rv) != r:
+            raise AssertionError(f"case radius {r!r} is not representable as {rform}")
+
+        def q_unchanged(what):
+            same = (list(qv) == q and type(qv) in (list, tuple)) if qform in ("list", "tuple") else \
+                (isinstance(qv, np.ndarray) and qv.dtype == np.float64 and qv.shape == (d,) and qv.tolist() == q)
+            return ctx.check(same, "side-effect:query-point", f"{where}: the query point object was modified by {what}: {qv!r}") \
+                and unchanged(what)
+
+        D_exact = exact_d2(pts, q) if q_exact else None
+        D_float = float_dist(pts, q) if not (q_exact and r_exact) else None
+        reps = 2 if Q.get("repeat") else 1
+        if reps == 2:
+            ctx.label("repeated-after-overwriting-result")
 
         # kNN
-        ok, res = ctx.call("knn", tree.query, qv, k)
-        if ok:
-            idx, err = as_index_list(res, N)
-            if ctx.check(err is None, "knn:type", f"{where} k={k}: {err}; result {res!r}"):
-                want = min(k, N)
-                good = ctx.check(len(idx) == want, "knn:count", f"{where} k={k}: {len(idx)} indices returned, expected min(k,N)={want}; "
-                                 f"result {idx}")
-                good = ctx.check(len(set(idx)) == len(idx), "knn:distinct", f"{where} k={k}: repeated index in {idx}") and good
-                if q_exact:
-                    D = exact_d2(pts, q)
-                    got = [D[i] for i in idx]
-                    ctx.check(all(got[j] <= got[j + 1] for j in range(len(got) - 1)), "knn:order",
-                              f"{where} k={k}: distances not non-decreasing: 16*d^2 = {got}")
-                    best = sorted(D)[:len(idx)] if good else sorted(D)[:want]
-                    ctx.check(sorted(got) == best, "knn:nearest", f"{where} k={k}: returned {idx} with 16*d^2 = {sorted(got)}, the "
-                              f"{len(best)} smallest are {best}")
-                else:
-                    D = float_dist(pts, q)
-                    got = [D[i] for i in idx]
-                    ctx.check(all(got[j] <= got[j + 1] + tol for j in range(len(got) - 1)), "knn:order",
-                              f"{where} k={k}: distances not non-decreasing: {got}")
-                    best = sorted(D)[:len(idx)] if good else sorted(D)[:want]
-                    sg = sorted(got)
-                    ctx.check(len(sg) == len(best) and all(abs(a - b) <= tol for a, b in zip(sg, best)), "knn:nearest",
-                              f"{where} k={k}: returned {idx} with distances {sg}, the {len(best)} smallest are {best}")
+        for rep in range(reps):
+            ok, res = ctx.call("knn", tree.query, qv, kv)
+            if not ok:
+                break
+            knn_oracle(ctx, res, D_exact if q_exact else D_float, k, N, q_exact, tol, where + (" (repeated call)" if rep else ""))
+            if not q_unchanged(f"query(k={k})"):
+                return
+            scribble(res)
 
         # radius
-        ok, res = ctx.call("radius", tree.query_radius, qv, r)
-        if ok:
-            idx, err = as_index_list(res, N)
-            if ctx.check(err is None, "radius:type", f"{where} r={r}: {err}; result {res!r}"):
-                ctx.check(len(set(idx)) == len(idx), "radius:distinct", f"{where} r={r}: repeated index in {sorted(idx)}")
-                got = set(idx)
-                if r_exact:
-                    D = exact_d2(pts, q)
-                    r2 = int(4 * r) ** 2
-                    exp = {i for i in range(N) if D[i] <= r2}
-                    if any(D[i] == r2 for i in range(N)):
-                        ctx.label("point-exactly-on-sphere")
-                    ctx.check(got == exp, "radius:set", f"{where} r={r}: missing {sorted(exp - got)[:10]} extra {sorted(got - exp)[:10]} "
-                              f"(16*d^2 of those: {[D[i] for i in sorted(exp ^ got)[:10]]}, 16*r^2={r2})")
-                else:
-                    D = float_dist(pts, q)
-                    must = {i for i in range(N) if D[i] <= r - tol}
-                    may = {i for i in range(N) if r - tol < D[i] <= r + tol}       # exempt: within tol of the sphere
-                    ctx.check(must <= got and got <= (must | may), "radius:set",
-                              f"{where} r={r!r}: missing {sorted(must - got)[:10]} extra {sorted(got - must - may)[:10]} "
-                              f"(distances {[D[i] for i in sorted((must - got) | (got - must - may))[:10]]})")
-                if len(got) not in (0, N):
-                    ctx.label("radius-proper-subset")
-
-    # queries and construction leave the data alone
-    ctx.check(np.array_equal(P, P0), "side-effect:input", "the caller's point array was modified")
-    tp = getattr(tree, "points", None)
-    ctx.check(isinstance(tp, np.ndarray) and tp.shape == P0.shape and np.array_equal(tp, P0), "side-effect:tree-points",
-              "tree.points differs from the input after the queries")
+        for rep in range(reps):
+            ok, res = ctx.call("radius", tree.query_radius, qv, rv)
+            if not ok:
+                break
+            radius_oracle(ctx, res, D_exact if r_exact else D_float, r, N, r_exact, tol, where + (" (repeated call)" if rep else ""))
+            if not q_unchanged(f"query_radius(r={r})"):
+                return
+            scribble(res)
 
 
 SUBCHECKS = [
-    SubCheck("queries", kd_case(True), fn_queries, quick=8000, thorough=24000),
+    SubCheck("queries", kd_case(True), fn_queries, quick=7000, thorough=24000),
     SubCheck("build", kd_case(False), fn_build, quick=3000, thorough=10000),
+    SubCheck("large", large_case(), fn_queries, quick=16, thorough=60),
 ]
 
 MATCHERS = {}
